@@ -11,8 +11,9 @@ from .chooser import FixedChooser
 class SimServer(object):
     """Accepts connections on 127.0.0.1 and serves the device model over them (one at a time)."""
 
-    def __init__(self, cfg, rcvbuf=None, slow=0.0, frag=None):
+    def __init__(self, cfg, rcvbuf=None, slow=0.0, frag=None, stall=None):
         self.cfg = cfg
+        self.stall = stall        # (after_bytes, seconds): the device stops reading once, for that long, after that many bytes (then reads on)
         self.frag = frag          # cycle of piece sizes: the device's bytes leave in pieces that ignore packet boundaries, a pause after each
         self.frag_i = 0
         self.env = simenv.Env(FixedChooser(), cfg)
@@ -57,6 +58,11 @@ class SimServer(object):
                 if not data:
                     break
                 self.rx_bytes += len(data)
+                if env.rx_raw is not None:
+                    env.rx_raw += data
+                if self.stall and self.rx_bytes >= self.stall[0]:
+                    time.sleep(self.stall[1])
+                    self.stall = None
                 if self.slow:
                     time.sleep(self.slow)
                 env.dev.feed(data)
